@@ -3041,10 +3041,13 @@ fn generate_constraints_expr(
                             // fully qualified struct/enum method
                             // example: Person.fullname(my_person)
                             //          ^^^^^
-                            // the receiver is the first argument; names and defaults apply to the rest
-                            if let Some((receiver_arg, rest)) = args.split_first()
+                            if !func.args.first().is_some_and(|a| a.name.v == "self") {
+                                // no receiver: array.filled(x = 0, n = 3)
+                                calculate_func_call_order(ctx, fname.node(), args, expr.node());
+                            } else if let Some((receiver_arg, rest)) = args.split_first()
                                 && receiver_arg.name.is_none()
                             {
+                                // the receiver is the first argument; names and defaults apply to the rest
                                 calculate_func_call_order(ctx, fname.node(), rest, expr.node());
                                 if let Some(order) = ctx.function_call_arg_order.get_mut(&expr.id) {
                                     order.insert(0, receiver_arg.val.clone());
